@@ -10,6 +10,7 @@ def run(ctx):
     ctx.run_space(b, "cover", cpu_limit=60)
     ctx.run_space(b, "pos", cpu_limit=60)
     ctx.run_space(b, "deep", cpu_limit=300, shards=8)
+    ctx.run_space(b, "stairs", cpu_limit=300, shards=16)
     ctx.run_space(b, "rebuild", ["nth=1", "suffix=%d" % (2 if ctx.thorough else 1)], cpu_limit=300)
     if ctx.thorough:
         ctx.run_space(b, "rebuild", ["nth=2", "suffix=1"], cpu_limit=600)
@@ -17,6 +18,6 @@ def run(ctx):
     ctx.assumptions += ["ref/ref_lh1.c: LZHUF.C's StartHuff/update/reconst and position code, bound to the 21 corpus -lh1- members (incl. 1 MiB and 2 MiB members with repeated rebuilds) by ./check selftest"]
     return ctx.finish(
         rule="an explored state is a symbol history (all sequences to the depth over a 10-symbol alphabet; depth 1/2 over all 314 symbols; permutation prefixes covering the alphabet; 8 deterministic prefixes stopping -2..+1 symbols around the n-th rebuild x all suffixes); "
-             "in EVERY state each of the 314 symbols is encoded with the reference code of that state and must decode correctly (transitions = decodes). 'deep' = Fibonacci-shaped histories that push code words beyond 16 bits (longest code reported in the evidence notes), probed with all 314 symbols; every 8th decode is repeated with the input delivered in pieces of 1-3 bytes; 'pos' = every upper distance code x low bits x lengths after 10 prefix lengths incl. the ring seam. "
+             "in EVERY state each of the 314 symbols is encoded with the reference code of that state and must decode correctly (transitions = decodes). 'deep' = Fibonacci-shaped histories that push code words beyond 16 bits (longest code reported in the evidence notes), probed with all 314 symbols; every 8th decode is repeated with the input delivered in pieces of 1-3 bytes; 'stairs' = staircase histories (K symbols with K different counts, three orders, K up to the whole alphabet) that put several hundred distinct frequencies into the tree at once (number reported in the notes), probed with all 314 symbols; 'pos' = every upper distance code x low bits x lengths after 10 prefix lengths incl. the ring seam. "
              "non-trivial/distinct = distinct complete code assignments (hash of all 314 code words)",
         replay_fn=lambda rep: runner.replay_explorer(rep, quiet=True))
